@@ -1,14 +1,14 @@
 (** C17 - "validate always terminates with a verdict": literal models of the
     code fragments the property's anchors name.  Definitions only.
 
-    1. validate_version_nums            src/ocfl/validate/serde.rs:1312-1382 (after commits 719e6a5, f842f41)
-    2. InventoryVisitor::visit_map      src/ocfl/validate/serde.rs:151-514 (field loop, final guards,
+    1. validate_version_nums            src/ocfl/validate/serde.rs:1321-1391 (after commits 719e6a5, f842f41)
+    2. InventoryVisitor::visit_map      src/ocfl/validate/serde.rs:152-517 (field loop, final guards,
        Inventory::new(..).unwrap(); blank id after commit b116ae5) and Inventory::new, src/ocfl/inventory.rs:95-131
     3. the cross-inventory checks       src/ocfl/validate/mod.rs:607-641, 1534-1707
        (get_version(..).unwrap(), content_paths(..).unwrap(), PrettyPrintSet types.rs:1350-1362)
-    4. validate_non_conflicting         src/ocfl/validate/serde.rs:1464-1478 (cost)
-    5. ContentPathsIter::next           src/ocfl/validate/mod.rs:2103-2124
-    6. IncrementalValidatorImpl::next   src/ocfl/validate/mod.rs:1923-2018
+    4. validate_non_conflicting         src/ocfl/validate/serde.rs:1473-1487 (cost)
+    5. ContentPathsIter::next           src/ocfl/validate/mod.rs:2106-2127
+    6. IncrementalValidatorImpl::next   src/ocfl/validate/mod.rs:1923-2022
     7. Display for VersionNum           src/ocfl/types.rs:396-406 (after commit d5a9e2d) *)
 From Rocfl Require Export Base.Bytes Model.VersionNum.
 From Rocfl Require Import Generated.Consts.
@@ -23,7 +23,7 @@ Definition unwrap {A} (r : res A) : res A := match r with Err => Panic | x => x 
 (** VersionNum::next is [vnext] of Model/VersionNum.v (types.rs:297-315 after commit 476b184):
     [Err] when the number has reached the maximum of its width (u32::MAX for width 0). *)
 
-(** serde.rs:1312-1313 [const MAX_MISSING_VERSIONS_LISTED: u32 = 100], read from the source on every run *)
+(** serde.rs:1321-1322 [const MAX_MISSING_VERSIONS_LISTED: u32 = 100], read from the source on every run *)
 Definition MAX_LISTED : N := K_MAX_MISSING_VERSIONS_LISTED.
 
 (** what the function costs: E010 errors recorded (memory) and loop iterations (time: one per
@@ -34,7 +34,7 @@ Definition c0 : vcost := mkC 0 0.
 (** The constructor [Err] stands for "fuel exhausted" in the results of this section
     (a Rust-level [Err] is either unwrapped => [Panic], or handled by [break]). *)
 
-(** serde.rs:1346-1352, the inner loop (entered for small gaps only)
+(** serde.rs:1359-1365, the inner loop (entered for small gaps only)
       while next_version < *version {
           result.error(E010, ..);                       <- errors + 1
           next_version = next_version.next().unwrap();
@@ -51,7 +51,7 @@ Fixpoint gap_loop (dbg : bool) (fuel : nat) (next : vnum) (target : N) (c : vcos
     end
   else Ok (next, c).
 
-(** serde.rs:1330-1354, the [if next_version < *version] statement.
+(** serde.rs:1339-1367, the [if next_version < *version] statement.
     [version.number - next_version.number] and [version.number - 1] cannot underflow under the
     guard; the two numbers of the range message are printed with next_version's width. *)
 Definition gap_stmt (dbg : bool) (fuel : nat) (next v : vnum) (c : vcost) : res (vnum * vcost) :=
@@ -61,7 +61,7 @@ Definition gap_stmt (dbg : bool) (fuel : nat) (next v : vnum) (c : vcost) : res 
     else gap_loop dbg fuel next (vn_number v) c
   else Ok (next, c).
 
-(** serde.rs:1320-1365, the [for version in version_nums] loop; [vs] is the iteration order
+(** serde.rs:1329-1374, the [for version in version_nums] loop; [vs] is the iteration order
     of the BTreeSet *)
 Fixpoint vnums_go (dbg : bool) (fuel : nat) (vs : list vnum) (next : vnum) (c : vcost) : res vcost :=
   match vs with
@@ -69,7 +69,7 @@ Fixpoint vnums_go (dbg : bool) (fuel : nat) (vs : list vnum) (next : vnum) (c : 
   | v :: rest =>
       match gap_stmt dbg fuel next v (mkC (c_errors c) (c_iters c + 1)) with
       | Ok (next', c') =>
-          match vnext dbg next' with             (* serde.rs:1360-1364 (commit f842f41) *)
+          match vnext dbg next' with             (* serde.rs:1369-1373 (commit f842f41) *)
           | Ok next'' => vnums_go dbg fuel rest next'' c'         (* Ok(next) => next *)
           | Err => Ok c'                                          (* Err(_) => break *)
           | Panic => Panic
@@ -85,7 +85,7 @@ Definition vn_v1 : vnum := mkV 1 0.                            (* VersionNum::v1
 Definition validate_version_nums (dbg : bool) (vs : list vnum) : res vcost :=
   vnums_go dbg (N.to_nat MAX_LISTED) vs vn_v1 c0.
 
-(** serde.rs:1321-1328, 1367-1381: (E013 inconsistent padding, W001 zero padded) *)
+(** serde.rs:1330-1337, 1376-1390: (E013 inconsistent padding, W001 zero padded) *)
 Definition vnums_padding (vs : list vnum) : bool * bool :=
   match vs with
   | [] => (false, false)
@@ -159,16 +159,18 @@ Definition has_errors (e : errs) : bool := existsb (fun x => 0 <? snd x) e.
 Definition err_count (c : ecode) (e : errs) : N :=
   fold_left (fun acc x => if ecode_n (fst x) =? ecode_n c then acc + snd x else acc) e 0.
 
-(** a JSON value at a place where the visitor asks for a string *)
+(** a JSON value at a place where the visitor asks for a string.  Since commit 2f36fc5 the
+    visitors read [Cow<str>] (id, digestAlgorithm, head, contentDirectory, version keys) or an
+    owned [String] (type): a string token with escape sequences is decoded and then treated like
+    any other string, so [s] is the DECODED value. *)
 Inductive sval :=
-| SStr (s : bytes)   (** string without escape sequences: [next_value::<&str>()] succeeds *)
-| SEsc               (** string with escapes: borrowing fails, an owned [String] succeeds *)
+| SStr (s : bytes)   (** a JSON string, [s] = its decoded value *)
 | SOther.            (** number, bool, null, array, object *)
 
 (** a JSON value at a place where the visitor asks for an object.  When serde_json refuses a
     value with "invalid type ... expected ROCFL" the visitor records its own error and goes on;
     a scalar has been consumed by then, but of an array only nothing: the next [next_key] then
-    meets '[' and fails with a syntax error, which ends the parse (E033 added by parse(), serde.rs:62-73) *)
+    meets '[' and fails with a syntax error, which ends the parse (E033 added by parse(), serde.rs:63-74) *)
 Inductive cval :=
 | CObj               (** an object whose content records no error *)
 | CScalar            (** number, string, bool, null *)
@@ -210,12 +212,12 @@ Definition addn (c : ecode) (n : N) (st : pst) : pst :=
 
 Definition is_nil' {A} (l : list A) : bool := match l with [] => true | _ => false end.
 Definition contains_slash (s : bytes) : bool := existsb (fun c => Ascii.eqb c "/"%char) s.
-(** serde.rs:305-313 and validate_content_dir (validate/mod.rs:53-61) use the same three tests *)
+(** serde.rs:306-314 and validate_content_dir (validate/mod.rs:53-61) use the same three tests *)
 Definition cdir_kind (s : bytes) : option ecode :=
   if bytes_eqb s (b ".") || bytes_eqb s (b "..") then Some E018
   else if contains_slash s then Some E017 else None.
 
-(** VersionsVisitor::visit_map, serde.rs:563-622: nums, map keys, errors, aborted by a syntax error *)
+(** VersionsVisitor::visit_map, serde.rs:566-626: nums, map keys, errors, aborted by a syntax error *)
 Fixpoint versions_fold (l : list (bytes * body)) (nums keys : list vnum) (e : errs)
   : list vnum * list vnum * errs * bool :=
   match l with
@@ -235,7 +237,7 @@ Definition versions_value (l : list (bytes * body)) : list vnum * list vnum * er
   let '(nums, keys, e, aborted) := versions_fold l [] [] [] in
   if aborted then (nums, keys, e, true)
   else
-    (* validate_version_nums, serde.rs:615: by C17_vnums_exact it records [vnums_cost] E010 errors *)
+    (* validate_version_nums, serde.rs:619: by C17_vnums_exact it records [vnums_cost] E010 errors *)
     let e1 := e ++ [(E010, vnums_cost (map vn_number nums))] in
     let e2 := if fst (vnums_padding nums) then e1 ++ [(E013, 1)] else e1 in
     (nums, keys, e2, false).
@@ -244,14 +246,14 @@ Definition set_errs (st : pst) (e : errs) : pst :=
   mkP (p_id st) (p_type st) (p_alg st) (p_head st) (p_cdir st) (p_manifest st) (p_versions st) (p_fixity st)
       (f_digest st) (f_head st) (f_manifest st) (f_versions st) e.
 
-(** one iteration of the field loop, serde.rs:171-399.
+(** one iteration of the field loop, serde.rs:172-400.
     [inl st'] : continue;  [inr e] : [return Err(e)] - the visitor aborts with these recorded errors *)
 Definition step (st : pst) (it : item) : pst + errs :=
   match it with
   | IId v =>
       if p_id st then inl (add E033 st)                                 (* duplicate_field *)
       else match v with
-           | SStr s =>                                                   (* serde.rs:184-200 *)
+           | SStr s =>                                                   (* serde.rs:184-201 *)
                (* [if value.is_empty() { E037 "must not be blank" } else if URI::try_from(value).is_err() { W005 }]
                   (URI::try_from: section 8), then [id = Some(value)] in either case *)
                inl (mkP (Some s) (p_type st) (p_alg st) (p_head st) (p_cdir st) (p_manifest st)
@@ -360,8 +362,8 @@ Definition some {A} (o : option A) : bool := match o with Some _ => true | None 
 
 Definition opt_err (c : bool) (code : ecode) : errs := if c then [(code, 1)] else [].
 
-(** serde.rs:401-450: the checks after the loop that the model covers
-    (E096/E050/E107, serde.rs:452-493, and validate_fixity only ever add errors) *)
+(** serde.rs:402-453: the checks after the loop that the model covers
+    (E096/E050/E107, serde.rs:455-496, and validate_fixity only ever add errors) *)
 Definition final_errs (st : pst) : errs :=
   opt_err (negb (some (p_id st))) E036                                   (* missing_inv_field *)
   ++ opt_err (negb (p_type st)) E036
@@ -377,7 +379,8 @@ Definition final_errs (st : pst) : errs :=
      | Some h, Some (nums, _) =>
          opt_err (negb (vset_mem h nums)) E010
          ++ match rev nums with
-            | hi :: _ => opt_err (negb (vn_number h =? vn_number hi)) E040
+            (* [head != highest_version || head.width != highest_version.width] (commit 88a7bdc) *)
+            | hi :: _ => opt_err (negb (vn_number h =? vn_number hi) || negb (vn_width h =? vn_width hi)) E040
             | [] => []
             end
      | _, _ => []
@@ -398,7 +401,7 @@ Inductive pres :=
 | PAbort        (** Err(e): serde error, the recorded errors are kept *)
 | PPanicked.
 
-(** serde.rs:497-513 *)
+(** serde.rs:500-516 *)
 Definition finish (st : pst) : pres * errs :=
   let e := p_errs st ++ final_errs st in
   if has_errors e then (PNoInv, e)
@@ -543,10 +546,26 @@ Fixpoint cross_loop (dbg : bool) (root : ainv) (dirs : list (N * ainv)) (seen : 
 Definition cross_check (dbg : bool) (root : ainv) (dirs : list (N * ainv)) : xres :=
   cross_loop dbg root dirs [] 0.
 
+(** Which inventories reach that loop.  validate_inventory, mod.rs:1008-1019 with 1031-1038: the
+    inventory read from version directory [num] gets E040 in its own parse result when its head
+    is not [num] ([!=] on VersionNum: numbers only) and is then NOT returned ([if !has_errors
+    { inventory = Some(inv) }]); validate_version (mod.rs:1460-1502) runs the cross-inventory
+    checks only for a returned inventory and only such an inventory enters [inventories]
+    (mod.rs:621-638).  [found] = the inventories that parse without error in the version
+    directories below the head (directory number, inventory), descending.
+    The [get_version(..).unwrap()]s of mod.rs:1551-1552 rely on this rejection: an accepted
+    inventory has every version from its directory number down to v1. *)
+Definition head_accepted (d : N * ainv) : bool := i_head (snd d) =? fst d.
+Definition object_cross_check (dbg : bool) (root : ainv) (found : list (N * ainv)) : xres :=
+  cross_check dbg root (filter head_accepted found).
+(** E040 errors recorded for the rejected ones, one each *)
+Definition head_rejected_count (found : list (N * ainv)) : N :=
+  nlen (filter (fun d => negb (head_accepted d)) found).
+
 (* ------------------------------------------------------------------ *)
 (** * 4. validate_non_conflicting (cost) *)
 
-(** serde.rs:1469-1477, for one path:
+(** serde.rs:1478-1486, for one path:
       while let Some(index) = part.rfind('/') { part = &part[0..index]; if paths.contains(part) {..break} }
     every [contains] hashes the prefix: cost = sum of the prefix lengths (no conflict: no break).
     [slash_prefix_cost pos s] : s is the rest of the path, pos the index of its first character *)
@@ -564,7 +583,7 @@ Fixpoint rep_seg (n : nat) : bytes :=         (** "a/a/a/.../" n times "a/" *)
 (* ------------------------------------------------------------------ *)
 (** * 5. ContentPathsIter::next *)
 
-(** mod.rs:2110-2119: [while self.current_version != VersionNum::v1()] with
+(** mod.rs:2113-2122: [while self.current_version != VersionNum::v1()] with
     [previous().unwrap()]; [eq] is the equality used for [!=]; [has n] = path_map has paths for n.
     Result: the version whose paths are iterated next, or None at v1.  [Err] = fuel exhausted. *)
 Fixpoint cpi_walk (eq : vnum -> vnum -> bool) (dbg : bool) (fuel : nat) (cur : vnum) (has : N -> bool)
@@ -589,7 +608,7 @@ Inductive tree :=
 | TObj (ok : bool)          (** a directory holding an object declaration; validate_object gives Ok / Err *)
 | TDir (children : list tree)
 | TBadDir                   (** storage.list fails *)
-| TLeaf.                    (** a file, a link, or a directory named "extensions" *)
+| TLeaf.                    (** a file, a link, or the storage root's own "extensions" directory (mod.rs:1944-1949) *)
 
 (** one element of the iteration *)
 Inductive vitem := VResult (ok : bool) | VListErr.
@@ -645,7 +664,7 @@ Definition vdisplay_writes (v : vnum) : N :=            (** calls of write_str *
   2 + (vn_width v - blen (dec_digits (vn_number v))).
 
 (* ------------------------------------------------------------------ *)
-(** * 8. URI::try_from of uriparse 0.6.4 (third-party), called for "id" (serde.rs:190) and user "address" (serde.rs:1214) *)
+(** * 8. URI::try_from of uriparse 0.6.4 (third-party), called for "id" (serde.rs:191) and user "address" (serde.rs:1220) *)
 
 (** uri.rs:913-916 [URIReference::try_from(value).map_err(|e| URIError::try_from(e).unwrap())]: the
     conversion has no image for SchemelessPathStartsWithColonSegment (uri.rs:1535-1552), raised by
